@@ -102,6 +102,33 @@ fn scale_family(rep: &mut Report) {
             }
         }
     }
+    // the repository's own programs (examples/*.nl, which its test suite skips, the README's code blocks, the test strings)
+    for src in crate::props::c05::corpus_programs() {
+        rep.eval();
+        rep.count("repository-programs");
+        let prog = match crate::dbgparse::parse_source(&src) {
+            Ok(p) => p,
+            Err(_) => {
+                rep.count("repository-programs:not-parsed");
+                continue;
+            }
+        };
+        let out = diff_source_budget(&prog, src.clone(), 20_000_000, 20_000_000);
+        match out.verdict {
+            Verdict::Agree => {
+                rep.count("repository-programs:agree");
+                rep.nontrivial(&src);
+            }
+            Verdict::Discard(why) => rep.count(&format!("repository-programs:discard:{}", why.split(':').next().unwrap_or(""))),
+            // the test suite's negative inputs often have two faults at once (`antwoord fib(1)` at top level with an unknown
+            // name): which of the two errors is reported is not fixed (U13)
+            Verdict::Violation { class, .. } if class == "mismatch:error-kind" => rep.count("repository-programs:error-kind-differs (U13)"),
+            Verdict::Violation { class, expected, observed } => {
+                let clip = |t: String| t.chars().take(600).collect::<String>();
+                rep.violation(Violation { property: "C01".into(), driver: "repository-programs".into(), class, case: serde_json::json!({"src": src}), expected: clip(expected), observed: clip(observed) });
+            }
+        }
+    }
     rep.sample(serde_json::json!({"scale": "stel g0 = 1 ... stel g999 = 2998; [g0, g1, g127, g128, g254, g255, g256, g257, g511, g512, g999]"}));
 }
 
